@@ -1,5 +1,6 @@
 import Clover.Generated.Translated
 import Clover.Model.Plan
+import Clover.Model.QueryBuilder
 /-! # The translated source equals the model
 
 `Generated/Translated.lean` is produced on every run from the current Go source by `harness/cmd/translate` (statement by
@@ -148,6 +149,19 @@ theorem unaryEq_eq (f : Bytes) (x : Operand) (d : Doc) :
 theorem unaryExist_eq (op : String) (f : Bytes) (x : Operand) (d : Doc) :
     UnaryCriteria_exist ⟨op, f, x⟩ d = d.has f := by
   simp [UnaryCriteria_exist, Id.run, id_pure]
+
+/-- the generated mirror of Go's `query.Query` and the model's `Query` (whose skip is a natural number: `Skip` never stores a
+    negative one) -/
+def toQ (g : GQuery) : Query :=
+  { coll := g.collection, crit := g.criteria, skip := g.skip.toNat, limit := g.limit, sort := g.sortOpts }
+
+/-- `Query.Skip` and `Query.Limit` (with `Query.copy`) as the current source writes them: a negative skip is ignored, a
+    limit is stored as given, every other field is carried over -/
+theorem querySkip_eq (g : GQuery) (n : Int) : toQ (Query_Skip g n) = (toQ g).skipB n := by
+  by_cases h : n ≥ 0 <;> simp [Query_Skip, Query_copy, Query.skipB, toQ, Id.run, id_pure, h]
+
+theorem queryLimit_eq (g : GQuery) (n : Int) : toQ (Query_Limit g n) = (toQ g).limitB n := by
+  simp [Query_Limit, Query_copy, Query.limitB, toQ, Id.run, id_pure]
 
 variable (likeFn : LikeFn) (fnFam : FnFam)
 
